@@ -371,7 +371,8 @@ void VGM_Writer::add_gd3(const char* s)
 		source++;
 		max--;
 	}
-	buffer_pos += 2; // 0x00, 0x00 double null-terminator
+	*buffer_pos++ = 0; // 0x00, 0x00 double null-terminator
+	*buffer_pos++ = 0;
 #endif
 }
 
